@@ -11,7 +11,8 @@ Inductive sitem :=
 | SN (n : N)
 | SNge (n : N)
 | SL (l : list N)
-| SAny.
+| SAny.                                                   (* any number or list -- never a vector: a result
+                                                            vector is always constrained (type, canonicity, value) *)
 
 Inductive sres :=
 | SOk (l : list sitem)
@@ -53,7 +54,7 @@ Definition item_ok (s : sitem) (i : item) : bool :=
   | SN n, IN m => n =? m
   | SNge n, IN m => n <=? m
   | SL l, IL m => list_eqb l m
-  | SAny, _ => true
+  | SAny, IN _ | SAny, IL _ => true
   | _, _ => false
   end.
 
@@ -199,6 +200,10 @@ Definition spec_case (c : case) : sres :=
       | 21 => SOk [SN n]
       | 22 | 23 => SOk [SL (match endian_of a0 with Little => bytes_le a | Big => rev (bytes_le a) end)]
       | 24 => if a0 <? n then SOk [SN (sbit a a0)] else dbg_or_free P
+      (* write into a sink with room for a1 bytes: success exactly when all ceil(len/8) bytes fit, and then the sink
+         holds exactly those bytes; otherwise an error (what a full sink received meanwhile is not prescribed) *)
+      | 38 => let bytes := match endian_of a0 with Little => bytes_le a | Big => rev (bytes_le a) end in
+              if lenw bytes <=? a1 then SOk [SL bytes; SN 0] else SOk [SAny; SN 1]
       | 25 => SOk [SN (if 0 <? n then sbit a 0 else 2)]
       | 26 => SOk [SN (if 0 <? n then sbit a (n - 1) else 2)]
       | 27 => SOk [SN (match a0 with
